@@ -1,5 +1,5 @@
 (* Extraction of the broker model for the correspondence check (ExtrOcamlBasic only). *)
-From Aldrin Require Import Broker.Model.
+From Aldrin Require Import Broker.Model Broker.GateSpec.
 From stdpp Require Import gmap.
 Require Extraction ExtrOcamlBasic.
 Extraction Language OCaml.
@@ -11,4 +11,5 @@ Definition map_size_lis (s : state) : nat := size (listeners s).
 Definition map_size_calls (s : state) : nat := size (calls s).
 Definition conn_ids (s : state) : list N := (fun p => p.1) <$> map_to_list (conns s).
 Extraction "broker_model.ml" init step exits st conn_ids map_size_conns map_size_objs map_size_svcs
-  map_size_chans map_size_lis map_size_calls N.of_nat N.to_nat.
+  map_size_chans map_size_lis map_size_calls N.of_nat N.to_nat
+  min_version_of msg_min_version.
